@@ -1669,7 +1669,7 @@ def report(ctx, audit, t0):
             if n > 8:
                 break
             small = shrink(ctx, f) if len(f["case"]) > 3 else f["case"]
-            found = ctx.pid in SPEC_IS_MODEL and not mons
+            found = ctx.pid in SPEC_IS_MODEL and not mons and not all(x[0] == "kind~" for x in f["detail"])
             # a disagreement for which a monitor already produced a failing input is reported under that one
             path = os.path.join("evidence", "replays", "%s-%d.json" % (ctx.pid, n))
             json.dump({"property": ctx.pid, "kind": "correspondence", "key_type": f["kt"], "commands": small, "original_commands": f["case"],
